@@ -39,6 +39,10 @@ type Checker struct {
 	// SkipKnown makes Step return ErrKnownFinding instead of a violation for
 	// cases matching SigFlushNoopAfterReadFromError.
 	SkipKnown bool
+	// SkipExactFit excludes (and counts in ExcludedExactFit) the cases of the
+	// listed finding SigReadFromExactFit.
+	SkipExactFit     bool
+	ExcludedExactFit int
 	// Keys, if set, collects the masking keys of the client-side frames by the
 	// route that produced them (see KeyStats).
 	Keys *KeyStats
@@ -67,6 +71,7 @@ type Checker struct {
 	plain    bool        // only Write/ReadFrom/Grow (and silent FlushFragment) since the previous final flush
 	fits     bool        // every Write so far kept the total <= Size() (ReadFrom: < Size())
 	grewFull bool        // a Grow happened with buffered bytes
+	exactFit bool        // a ReadFrom found / left the buffer exactly full without learning that its source had ended
 	setters  int         // calls of this message that succeeded as Write / accepted WriteThrough / ReadFrom to EOF
 	rfErrs   int         // ReadFrom calls of this message whose source ended with an error / stalled
 
@@ -93,6 +98,12 @@ type Checker struct {
 // non-final fragment(s), Flush does nothing: the message stays open and the
 // next one continues it.
 const SigFlushNoopAfterReadFromError = "C06/flush-noop-after-failed-readfrom-with-empty-buffer"
+
+// SigReadFromExactFit: ReadFrom flushes a fragment as soon as the buffer is
+// full, before it knows whether the source has more: data of exactly Size()
+// bytes (in total, plain Writes before included) leaves as a non-final frame
+// plus an empty final one instead of a single frame.
+const SigReadFromExactFit = "C06/readfrom-exact-fit-leaves-as-two-frames"
 
 // ErrKnownFinding is returned by Step for a case matching
 // SigFlushNoopAfterReadFromError when Checker.SkipKnown is set; the history
@@ -189,14 +200,17 @@ func (c *Checker) Step(a Action, r Result) error {
 		}
 		c.acc = append(c.acc, a.Data()[:r.N]...)
 		c.wcalls++
-		// The data fits the buffer when it is strictly smaller — or exactly as
-		// large and the source announced its end together with its last bytes
-		// (n > 0 with io.EOF or an error), so that the writer knows nothing
-		// follows; without that the writer has to make room before it can learn
-		// that the source is exhausted, which is not held against it.
+		// "data that fits the buffer leaves as a single frame": up to Size() bytes
+		// fit, however the source hands them over. exactFit marks the sub-case of
+		// SigReadFromExactFit: the buffer is exactly full and the source has not
+		// announced its end together with its last bytes.
 		endKnown := a.EOFWithData && !a.Stall && a.Len > 0
-		if over := len(c.acc) - r.Before.Size; (over > 0 || (over == 0 && !endKnown)) && len(c.acc) >= c.MinSize {
+		over := len(c.acc) - r.Before.Size
+		if over > 0 && len(c.acc) > c.MinSize {
 			c.fits = false
+		}
+		if over == 0 && !endKnown {
+			c.exactFit = true
 		}
 		if c.Cfg.NoFlush && len(frames) > 0 {
 			return fmt.Errorf("readfrom sent %d frame(s) although flushing is disabled", len(frames))
@@ -267,7 +281,7 @@ func (c *Checker) finish(r Result) error {
 			c.done = append(c.done, c.acc...)
 		}
 		c.msg, c.sent, c.acc, c.wcalls, c.plain, c.fits = nil, 0, nil, 0, true, true
-		c.setters, c.rfErrs = 0, 0
+		c.setters, c.rfErrs, c.exactFit = 0, 0, false
 	}()
 	n := len(c.msg)
 	switch {
@@ -299,8 +313,10 @@ func (c *Checker) finish(r Result) error {
 	}
 	if c.plain && c.fits {
 		c.SingleClaims++
-		if n != 1 {
-			return fmt.Errorf("%d accepted bytes fit the buffer but left as %d frames", len(c.acc), n)
+		if n != 1 && c.exactFit && c.SkipExactFit {
+			c.ExcludedExactFit++
+		} else if n != 1 {
+			return fmt.Errorf("%d accepted bytes fit the buffer (Size() %d) but left as %d frames", len(c.acc), r.Before.Size, n)
 		}
 	}
 	if c.Cfg.NoFlush && c.plain {
